@@ -233,7 +233,7 @@ pub fn gen_rules_n(rng: &mut Rng, below: usize, maxlen: usize) -> Vec<Rule> {
 pub fn gen_rules(rng: &mut Rng, n: usize, maxlen: usize) -> Vec<Rule> {
     // (U+3000 and U+00A0 are text, not separators: the columns of a rule are separated by ASCII blanks; they
     // never stand at the start or the end of a line here, where the reader trims the line)
-    let pats = ["*", "a", "b", "(a|b)", "名詞", "(名詞|動詞)", "一般", "*", "(a)", "(名詞)", "(b|a|c)", "(a|\u{3000})", "(\u{3000}|a)", "全\u{3000}角", "a", "b", "*", "名詞", "(a|b)", "*a", "*名詞", "a*"];
+    let pats = ["*", "a", "b", "(a|b)", "名詞", "(名詞|動詞)", "一般", "*", "(a)", "(名詞)", "(b|a|c)", "(a|\u{3000})", "(\u{3000}|a)", "全\u{3000}角", "a", "b", "*", "名詞", "(a|b)", "*a", "*名詞", "a*", "((a)|(b))", "(a|(b))", "((名詞)|b)"];
     let outs = ["$1", "$2", "$3", "$4", "X", "a", "*", "$9", "$10", "$12", "$20", "$101", "全\u{3000}角", "y\u{a0}z", "$1", "$2", "X"];
     (0..n)
         .map(|_| {
@@ -277,11 +277,21 @@ pub fn gen_templates(rng: &mut Rng) -> (Vec<String>, Vec<(String, String)>) {
                 7 => format!("[%{s}[0]|%{s}[1]]B{i}"),
                 8 => format!("B{i}:%{s}[0]-tail"),
                 9 => format!("CONST{i}"),
+                10 if rng.chance(0.5) => format!("%{s}[{}]", rng.below(4)), // no literal text at all
                 10 => format!("B#{i}:%{s}[0]"),
                 _ => format!("B{i}:%{s}[1]"),
             }
         };
         b.push((mk(rng, 'L'), mk(rng, 'R')));
+    }
+    if rng.chance(0.1) {
+        // the same template line twice: two positions
+        let again = b[rng.below(b.len())].clone();
+        b.push(again);
+    }
+    if rng.chance(0.05) {
+        let again = u[rng.below(u.len())].clone();
+        u.push(again);
     }
     (u, b)
 }
@@ -372,7 +382,23 @@ pub fn gen_trainset(rng: &mut Rng) -> TrainSet {
                     s.push(c);
                 }
             }
-            let f = if rng.chance(0.5) { seed[rng.below(seed.len())].1.clone() } else { gen_cells(rng, 100 + i) };
+            let mut f = if rng.chance(0.5) { seed[rng.below(seed.len())].1.clone() } else { gen_cells(rng, 100 + i) };
+            if rng.chance(0.2) {
+                // the feature columns of an unknown-word entry, for a surface that starts in that entry's category
+                let (c, uf) = &unk[rng.below(unk.len())];
+                if let Some((ch, _)) = TCHARS.iter().find(|x| x.1 == *c && x.1 < ncat) {
+                    s = format!("{ch}{ch}");
+                    f = uf.clone();
+                }
+            } else if rng.chance(0.2) && !user.is_empty() {
+                // the same feature text as the previous user row, for a surface of another character category
+                let prev: &(String, u16, u16, i16, Vec<String>) = user.last().unwrap();
+                f = prev.4.clone();
+                let pc = prev.0.chars().next().unwrap_or('a');
+                if let Some((ch, _)) = TCHARS.iter().find(|x| x.0 != pc && TCHARS.iter().find(|y| y.0 == pc).map_or(true, |y| y.1 != x.1)) {
+                    s = format!("{ch}{}", s);
+                }
+            }
             if rng.chance(0.5) {
                 user.push((s, 0, 0, 0, f));
             } else {
@@ -1220,6 +1246,10 @@ pub fn c16_case(ctx: &mut Ctx, rng: &mut Rng) {
     }
     ctx.bucket("training_succeeded");
     let k = if bundled { std::fs::read_to_string(format!("{RES}/feature.def")).unwrap_or_default().lines().filter(|l| l.trim().starts_with("BIGRAM ")).count() } else { ts.bigram_t.len() };
+    let bare = !bundled && ts.bigram_t.iter().any(|(l, r)| bare_template_side(l) || bare_template_side(r));
+    if bare {
+        ctx.bucket("template_side_without_literal_text");
+    }
     let f = match generate(&mut m) {
         Ok(f) => f,
         Err(e) => {
@@ -1264,6 +1294,7 @@ pub fn c16_case(ctx: &mut Ctx, rng: &mut Rng) {
             return;
         }
         let mut worst = 0i64;
+        let mut clamp_seen = false;
         for r in 0..nr {
             for l in 0..nl {
                 let ca = vibrato::verif::conn_cost(&a, r as u16, l as u16) as i64;
@@ -1281,7 +1312,14 @@ pub fn c16_case(ctx: &mut Ctx, rng: &mut Rng) {
                         // the dual connector clamps its pre-summed matrix part to 16 bits (listed known finding)
                         ctx.violation("bigram_cost_differs_from_matrix_beyond_rounding", KNOWN_DUAL_CLAMP, detail + "; some choice of (templates - 8) per-template costs of this pair sums beyond 16 bits", cj(String::new()));
                         ctx.bucket("dual_clamp_case_seen");
+                        clamp_seen = true;
                         continue;
+                    }
+                    if bare {
+                        // (listed known finding: a bare feature value as a bigram feature string)
+                        ctx.violation("bigram_cost_differs_from_matrix_beyond_rounding", KNOWN_STAR_FEATURE, detail + "; feature.def has a BIGRAM template side without literal text", cj(String::new()));
+                        ctx.bucket("star_feature_case_seen");
+                        return;
                     }
                     ctx.violation("bigram_cost_differs_from_matrix_beyond_rounding", &format!("C16:{name}:beyond_rounding"), detail, cj(String::new()));
                     return;
@@ -1292,6 +1330,35 @@ pub fn c16_case(ctx: &mut Ctx, rng: &mut Rng) {
                 if ca != 0 {
                     ctx.bucket("non_zero_cell_compared");
                 }
+            }
+        }
+        // "can stand in for the matrix-based one": also after the same id mapping has been applied to both
+        if !clamp_seen && !bare && nr > 1 && nl > 1 && rng.chance(0.35) {
+            let (pl, pr) = (crate::gen::gen_perm_ids(rng, nl), crate::gen::gen_perm_ids(rng, nr));
+            let (li, ri) = (crate::model::perm_to_iter(&pl), crate::model::perm_to_iter(&pr));
+            let a2 = write_dict(&a).ok().and_then(|(bytes, _)| read_dict(&bytes).ok()).and_then(|r| r.ok());
+            let (li2, ri2) = (li.clone(), ri.clone());
+            let a2 = a2.and_then(|d| guarded(move || d.map_connection_ids_from_iter(li2, ri2).ok()).ok().flatten());
+            let b2 = guarded(move || b.map_connection_ids_from_iter(li, ri).map_err(|e| e.to_string()));
+            match (a2, b2) {
+                (Some(a2), Ok(Ok(b2))) => {
+                    for r in 0..nr {
+                        for l in 0..nl {
+                            let ca = vibrato::verif::conn_cost(&a2, r as u16, l as u16) as i64;
+                            let cb = guarded(|| vibrato::verif::conn_cost(&b2, r as u16, l as u16)).map(|c| c as i64).unwrap_or(i64::MIN);
+                            if (ca - cb).abs() > k as i64 + 1 {
+                                ctx.violation("bigram_cost_differs_from_matrix_beyond_rounding", &format!("C16:{name}:beyond_rounding_after_id_mapping"), format!("{name}, after the id mapping lmap {:?} rmap {:?} was applied to both dictionaries: cost(right {r}, left {l}) = {cb} from the bigram files, {ca} in matrix.def", crate::model::perm_to_iter(&pl), crate::model::perm_to_iter(&pr)), cj(String::new()));
+                                return;
+                            }
+                        }
+                    }
+                    ctx.bucket("compared_again_after_id_mapping");
+                }
+                (Some(_), other) => {
+                    ctx.violation("valid_mapping_rejected_by_bigram_dictionary", &format!("C16:{name}:mapping_rejected"), format!("the matrix dictionary accepts the mapping, the bigram dictionary: {:?}", other.map(|r| r.map(|_| "ok"))), cj(String::new()));
+                    return;
+                }
+                _ => {}
             }
         }
         ctx.total("id_pairs_compared", (nr * nl) as u64);
@@ -1308,6 +1375,32 @@ pub fn c16_case(ctx: &mut Ctx, rng: &mut Rng) {
 }
 
 pub const KNOWN_DUAL_CLAMP: &str = "C16:dual:beyond_rounding:pre-summed-part-may-exceed-16-bits";
+pub const KNOWN_STAR_FEATURE: &str = "C16:bigram-files:template-side-without-literal-text";
+
+/// A BIGRAM template side that consists of one feature reference and nothing else (`%L[1]`, `%R?[0]`): its expansion is
+/// the bare feature value, which may be `*` (the marker of an absent feature in bigram.left/right) or the empty text
+/// (the feature of BOS/EOS).
+pub fn bare_template_side(t: &str) -> bool {
+    let b = t.as_bytes();
+    t.len() >= 5 && b[0] == b'%' && (b[1] == b'L' || b[1] == b'R') && t.ends_with(']') && {
+        let rest = &t[2..t.len() - 1];
+        let rest = rest.strip_prefix('?').unwrap_or(rest);
+        rest.starts_with('[') && rest.len() > 1 && rest[1..].bytes().all(|c| c.is_ascii_digit())
+    }
+}
+
+/// Does the emitted bigram.cost list a feature string that is exactly `*` (on either side of a key)? In
+/// bigram.left / bigram.right `*` marks an absent feature, so such a string (the expansion of a template side without
+/// literal text, e.g. `%L[1]`, over a feature value `*`) cannot be told from "no feature" when the files are read.
+pub fn star_feature_in_cost_file(f: &Files) -> bool {
+    String::from_utf8_lossy(&f.bcost).lines().any(|l| {
+        let key = l.rsplit_once('\t').map_or(l, |x| x.0);
+        match key.split_once('/') {
+            Some((a, b)) => a == "*" || b == "*",
+            None => false,
+        }
+    })
+}
 
 /// Per-template contributions of the pair (r, l) read from the emitted bigram files by an
 /// independent parser: could the (templates - 8) costs that the dual connector pre-sums into its
@@ -1425,6 +1518,59 @@ pub fn c16_witness_dual_clamp(ctx: &mut Ctx) {
         }
     }
     ctx.bucket("witness_dual_clamp_not_reproduced");
+}
+
+/// Known finding: a template side without literal text over a feature value `*`.
+pub fn c16_witness_star_feature(ctx: &mut Ctx) {
+    let s = |x: &str| x.to_string();
+    let ts = TrainSet {
+        cats: vec![(s("DEFAULT"), false, true, 0)],
+        seed: vec![(s("a"), vec![s("名詞"), s("*")]), (s("b"), vec![s("動詞"), s("x")]), (s("c"), vec![s("助詞"), s("y")])],
+        unk: vec![(0, vec![s("記号"), s("z")])],
+        unigram_t: vec![s("U:%F[0]")],
+        // the left-word side of the second template has no literal text: for `a` it expands to `*`
+        bigram_t: vec![(s("B:%L[0]"), s("B:%R[0]")), (s("%L[1]"), s("C:%R[0]"))],
+        rules: [vec![], vec![], vec![]],
+        corpus: vec![
+            vec![(s("a"), vec![s("名詞"), s("*")]), (s("b"), vec![s("動詞"), s("x")])],
+            vec![(s("a"), vec![s("名詞"), s("*")]), (s("c"), vec![s("助詞"), s("y")])],
+            vec![(s("b"), vec![s("動詞"), s("x")]), (s("a"), vec![s("名詞"), s("*")]), (s("a"), vec![s("名詞"), s("*")])],
+            vec![(s("c"), vec![s("助詞"), s("y")]), (s("b"), vec![s("動詞"), s("x")])],
+        ],
+        user: vec![],
+        max_iter: 30,
+        lambda: 0.001,
+        zero_cat: 0,
+    };
+    ctx.eval();
+    let mut m = match train(&ts) {
+        Ok(m) => m,
+        Err(_) => return,
+    };
+    let f = match generate(&mut m) {
+        Ok(f) => f,
+        Err(_) => return,
+    };
+    if !star_feature_in_cost_file(&f) {
+        ctx.bucket("witness_star_feature_not_reproduced");
+        return;
+    }
+    let cd = ts.char_def();
+    let a = build_from_texts(&f.lex, cd.as_bytes(), &f.unk, &ConnTexts::Matrix(f.matrix.clone()));
+    let b = build_from_texts(&f.lex, cd.as_bytes(), &f.unk, &ConnTexts::Bigram { right: f.bright.clone(), left: f.bleft.clone(), cost: f.bcost.clone(), dual: false });
+    if let (BuildOutcome::Ok(a), BuildOutcome::Ok(b)) = (a, b) {
+        let (nr, nl) = vibrato::verif::conn_dims(&a);
+        for r in 0..nr {
+            for l in 0..nl {
+                let (ca, cb) = (vibrato::verif::conn_cost(&a, r as u16, l as u16) as i64, vibrato::verif::conn_cost(&b, r as u16, l as u16) as i64);
+                if (ca - cb).abs() > 3 {
+                    ctx.violation("bigram_cost_differs_from_matrix_beyond_rounding", KNOWN_STAR_FEATURE, format!("raw: cost(right {r}, left {l}) = {cb} from the bigram files, {ca} in matrix.def; 2 bigram templates allow a difference of 3; feature.def has a BIGRAM template side without literal text (`%L[1]`), bigram.cost lists the feature string `*`"), json!({"witness": "c16_witness_star_feature", "training": ts.texts(), "bigram.left": String::from_utf8_lossy(&f.bleft), "bigram.right": String::from_utf8_lossy(&f.bright), "bigram.cost": String::from_utf8_lossy(&f.bcost)}));
+                    return;
+                }
+            }
+        }
+    }
+    ctx.bucket("witness_star_feature_not_reproduced");
 }
 
 // ---------------------------------------------------------------- C17
@@ -1562,7 +1708,7 @@ pub fn c17_case(ctx: &mut Ctx, rng: &mut Rng) {
                 })
                 .collect();
             let text = rules_text(&sections);
-            let vals = ["a", "b", "名詞", "動詞", "一般", "*", "c", "x", "\u{3000}", "全\u{3000}角", "a", "b", "名詞", "*a", "a*"];
+            let vals = ["a", "b", "名詞", "動詞", "一般", "*", "c", "x", "\u{3000}", "全\u{3000}角", "a", "b", "名詞", "*a", "a*", "(a)", "(b)", "(名詞)", "a)", "(b"];
             let rlists: Vec<Vec<String>> = (0..40).map(|_| (0..if rng.chance(0.3) { 9 + rng.below(14) } else { rng.below(7) }).map(|k| if rng.chance(0.2) { format!("v{k}") } else { rng.pick(&vals).to_string() }).collect()).collect();
             if !c17_check(ctx, &text, sec, &rules, &rlists) {
                 return;
